@@ -89,6 +89,7 @@ func checkC15(c *hx.Ctx) {
 		build := hx.NewVersion(p, hx.VersionOpts{CAS: cas})
 		stub := &stubProvider{ops: map[string][]*operation.AnchoredOperation{}}
 		var plans []*txnPlan
+		usedOps := map[string]bool{}
 		n := 1 + r.Intn(6)
 		for k := 0; k < n; k++ {
 			t := txn.SidetreeTxn{Namespace: hx.Namespace, TransactionTime: uint64(100 + 10*k), TransactionNumber: uint64(r.Intn(9)),
@@ -105,11 +106,19 @@ func checkC15(c *hx.Ctx) {
 			for _, d := range perm[:1+r.Intn(5)] {
 				var cands []*batchOp
 				for _, o := range bp[d] {
-					if o.Until == 0 {
+					if o.Until == 0 && !usedOps[o.ID] {
 						cands = append(cands, o)
 					}
 				}
-				batch = append(batch, hx.Pick(r, cands))
+				if len(cands) == 0 {
+					continue
+				}
+				b := hx.Pick(r, cands)
+				usedOps[b.ID] = true // no operation is used twice in a sequence: content-addressed files are never shared
+				batch = append(batch, b)
+			}
+			if len(batch) == 0 {
+				continue
 			}
 			switch kind {
 			case "dup":
